@@ -225,6 +225,7 @@ type Fact struct {
 	F    Term
 	Note string
 	Blk  int // block of the entry function in which the fact arose (-1: unconditional)
+	OnlyIf string // when set: the fact is only relevant to queries that mention this symbol
 }
 
 // Ctx accumulates declarations, definitions and facts during the symbolic execution of
@@ -338,7 +339,20 @@ func (c *Ctx) AddFact(pc, f Term, note string) {
 	if pc.S != "true" {
 		blk = c.curBlk
 	}
-	c.facts = append(c.facts, Fact{pc, f, note, blk})
+	c.facts = append(c.facts, Fact{pc, f, note, blk, ""})
+}
+
+// AddFactAbout adds a fact that matters only to queries mentioning sym (an array name).
+func (c *Ctx) AddFactAbout(sym string, pc, f Term, note string) {
+	if c.qscope != nil {
+		c.AddFact(pc, f, note)
+		return
+	}
+	blk := -1
+	if pc.S != "true" {
+		blk = c.curBlk
+	}
+	c.facts = append(c.facts, Fact{pc, f, note, blk, sym})
 }
 
 // Snapshot marks the current amount of declarations and facts: an obligation sees
@@ -351,6 +365,9 @@ const smtPrelude = `(set-option :produce-models true)
 (set-logic ALL)
 (declare-sort Str 0)
 (declare-sort F64 0)
+(declare-sort Fuel 0)
+(declare-const fZ Fuel)
+(declare-fun fS (Fuel) Fuel)
 (declare-fun str.len_ (Str) Int)
 (declare-fun str.at_ (Str Int) Int)
 `
@@ -366,10 +383,15 @@ func (c *Ctx) Script(s Snapshot, pc, goal Term, extra []Term, wantModel bool, ex
 		excl[e] = true
 	}
 	var body bytes.Buffer
+	var tagged []Fact
 	for _, f := range c.facts[:s.nf] {
 		// facts that arose in a block of the entry function from which the obligation's
 		// block cannot be reached are about other paths: dropping them is sound
 		if s.blk >= 0 && f.Blk >= 0 && f.Blk != s.blk && c.anc != nil && !c.anc[s.blk][f.Blk] {
+			continue
+		}
+		if f.OnlyIf != "" {
+			tagged = append(tagged, f)
 			continue
 		}
 		fmt.Fprintf(&body, "(assert %s)\n", implies(f.PC, f.F).S)
@@ -378,22 +400,48 @@ func (c *Ctx) Script(s Snapshot, pc, goal Term, extra []Term, wantModel bool, ex
 		fmt.Fprintf(&body, "(assert %s)\n", e.S)
 	}
 	fmt.Fprintf(&body, "(assert %s)\n(assert %s)\n", pc.S, not(goal).S)
-	// cone of influence over declarations (reverse scan)
+	// cone of influence over declarations (reverse scan), iterated with the tagged facts:
+	// a tagged fact (frame / copy axiom about one array) is included only when its array
+	// is mentioned by what is already included. Dropping facts is always sound.
 	need := map[string]bool{}
-	for _, m := range tokRe.FindAllString(body.String(), -1) {
-		need[m] = true
-	}
-	keep := make([]bool, s.nd)
-	for i := s.nd - 1; i >= 0; i-- {
-		d := c.decls[i]
-		if excl[d.name] {
-			continue
+	addTokens := func(text string) {
+		for _, m := range tokRe.FindAllString(text, -1) {
+			need[m] = true
 		}
-		if need[d.name] || strings.HasPrefix(d.text, "(assert") && needAny(need, d.text) {
-			keep[i] = true
-			for _, m := range tokRe.FindAllString(d.text, -1) {
-				need[m] = true
+	}
+	addTokens(body.String())
+	keep := make([]bool, s.nd)
+	closeDecls := func() {
+		for i := s.nd - 1; i >= 0; i-- {
+			if keep[i] {
+				continue
 			}
+			d := c.decls[i]
+			if excl[d.name] {
+				continue
+			}
+			if need[d.name] || strings.HasPrefix(d.text, "(assert") && need[declSym(d.name)] {
+				keep[i] = true
+				addTokens(d.text)
+			}
+		}
+	}
+	closeDecls()
+	done := make([]bool, len(tagged))
+	for changed := true; changed; {
+		changed = false
+		for i, f := range tagged {
+			if done[i] || !need[f.OnlyIf] {
+				continue
+			}
+			done[i] = true
+			changed = true
+			line := fmt.Sprintf("(assert %s)\n", implies(f.PC, f.F).S)
+			body.WriteString(line)
+			addTokens(line)
+		}
+		if changed {
+			closeDecls()
 		}
 	}
 	var out bytes.Buffer
@@ -410,6 +458,24 @@ func (c *Ctx) Script(s Snapshot, pc, goal Term, extra []Term, wantModel bool, ex
 		out.WriteString("(get-model)\n")
 	}
 	return out.String()
+}
+
+// declSym: the symbol whose presence makes an asserted declaration (axiom, definition
+// equation) relevant to a query.
+func declSym(name string) string {
+	switch {
+	case strings.HasPrefix(name, "axiom."):
+		rest := strings.TrimPrefix(name, "axiom.")
+		if i := strings.LastIndex(rest, "."); i > 0 {
+			rest = rest[:i]
+		}
+		return sanitize("uf." + rest)
+	case name == "str.sub.ax":
+		return "str.sub_"
+	case strings.HasSuffix(name, ".def"), strings.HasSuffix(name, ".ne"), strings.HasSuffix(name, ".ax"):
+		return name[:strings.LastIndex(name, ".")]
+	}
+	return name
 }
 
 func needAny(need map[string]bool, text string) bool {
@@ -454,7 +520,8 @@ var solvers = []solverSpec{
 var (
 	cacheDir   = "/verif/.cache/smt"
 	cacheMu    sync.Mutex
-	solverSem  = make(chan struct{}, 14)
+	solverSem  = make(chan struct{}, 18)
+	jobSem     = make(chan struct{}, 5)
 	scratchDir string
 	noCache    bool
 )
@@ -490,10 +557,6 @@ func Solve(script string, timeout time.Duration, only ...string) SolveResult {
 				r.Cached = true
 				return r
 			}
-			if json.Unmarshal(b, &r) == nil && r.Secs >= timeout.Seconds()*0.99 {
-				r.Cached = true
-				return r
-			}
 		}
 	}
 	// identical scripts in flight are solved once
@@ -523,6 +586,10 @@ func Solve(script string, timeout time.Duration, only ...string) SolveResult {
 		return SolveResult{Verdict: "error", Raw: err.Error()}
 	}
 	defer os.Remove(file)
+	// one job = up to three solver processes; the clock starts once the job has a slot,
+	// so queueing behind other obligations never eats into the time limit
+	jobSem <- struct{}{}
+	defer func() { <-jobSem }()
 	ctx, cancel := context.WithTimeout(context.Background(), timeout+2*time.Second)
 	defer cancel()
 	type res struct {
